@@ -282,6 +282,51 @@ def long_objects(out, workdir):
     out.parts["long_objects"] = {"members": "12, 103 (thorough: 1001)"}
 
 
+def after_linking(out, workdir):
+    """objects that were linked to an array (get_linked_data) and edited afterwards -- through the array, through the
+    members, by replacing / reordering members without changing their number -- are written as they are NOW"""
+    from droplets import DiffuseDroplet, Emulsion, EmulsionTimeCourse, SphericalDroplet
+
+    rng = np.random.default_rng(out.seed + 5)
+    for k in range(12):
+        cls = [SphericalDroplet, DiffuseDroplet][k % 2]
+        mk = (lambda i: SphericalDroplet(rng.uniform(-3, 3, 2), float(rng.uniform(0.2, 2)))) if cls is SphericalDroplet else \
+             (lambda i: DiffuseDroplet(rng.uniform(-3, 3, 2), float(rng.uniform(0.2, 2)), float(rng.uniform(0.1, 1))))
+        em = Emulsion([mk(i) for i in range(4)])
+        arr = em.get_linked_data()
+        edit = ["array", "member", "setitem", "reverse", "sort", "pop-append", "slice-assign"][k % 7]
+        if edit == "array":
+            arr["radius"][2] = 7.25
+        elif edit == "member":
+            em[1].radius = 3.5
+        elif edit == "setitem":
+            em[1] = mk(9)
+        elif edit == "reverse":
+            em.reverse()
+        elif edit == "sort":
+            em.sort(key=lambda d: -d.radius)
+        elif edit == "pop-append":
+            em.pop(0)
+            em.append(mk(9))
+        else:
+            em[1:3] = [mk(8), mk(9)]
+        fails = []
+        p = os.path.join(workdir, f"linked_{k}.h5")
+        em.to_file(p)
+        back = Emulsion.from_file(p)
+        if not identical("Emulsion", em, back):
+            fails.append(f"emulsion linked to an array and then edited ({edit}) does not read back equal")
+        tc = EmulsionTimeCourse([em, em], times=[0.5, 1.5])
+        p2 = os.path.join(workdir, f"linked_tc_{k}.h5")
+        tc.to_file(p2)
+        if not identical("TimeCourse", tc, EmulsionTimeCourse.from_file(p2, progress=False)):
+            fails.append(f"time course of emulsions linked and edited ({edit}) does not read back equal")
+        out.evaluations += 1
+        if fails:
+            out.violation({"after_linking": edit, "fails": fails})
+    out.parts["after_linking"] = {"cases": 12}
+
+
 def run(out: core.Outcome) -> None:
     import multiprocessing as mp
 
@@ -328,6 +373,7 @@ def run(out: core.Outcome) -> None:
                                    not_constructible=unb)
             out.sample({"config": name, "history": r.printed[len(r.printed) // 2]["hist"]})
         long_objects(out, str(workdir))
+        after_linking(out, str(workdir))
     finally:
         shutil.rmtree(workdir, ignore_errors=True)
     out.explanation = out.rule
